@@ -33,7 +33,7 @@ def main():
             evidence_file="/verif/evidence/%s.json" % pid,
             replay_cmd_template="./check %s --replay {path}" % pid,
             engine=c["engine"],
-            level_claimed=dict(category="model_checking", text=c["text"], design_ref=c.get("design_ref", "DESIGN.md section 3, " + pid)),
+            level_claimed=dict(category=c.get("category", "model_checking"), text=c["text"], design_ref=c.get("design_ref", "DESIGN.md section 3, " + pid)),
             level_note=c["note"],
             technique=c["technique"],
         ))
